@@ -28,4 +28,35 @@ theorem N4_run_commits : ∃ net, NetReach N4 net ∧ Action.commit ⟨0, 0, 0, 
     (fun c hc => by rcases hc with hc | hc <;> cases hc; exact Or.inr (by decide); trivial))
   exact ⟨_, r9, by decide⟩
 
+/-- … and a run in which TWO correct validators (0 and 1) commit at height 0, so the hypotheses of
+`network_agreement` are jointly reachable with `p ≠ p'`; the simulation relation holds there for a
+machine with a non-empty vote counter that has locked and moved to the next height. -/
+theorem N4_run_two_commit : ∃ net, NetReach N4 net ∧
+    Action.commit ⟨0, 0, 0, -1, 8⟩ ∈ (net.node 0).out ∧ Action.commit ⟨0, 0, 0, -1, 8⟩ ∈ (net.node 1).out ∧
+    (net.node 0).m.state.height = 1 ∧ ∃ s, Sim N4.E (N4.envOf 0) s (net.node 0).m := by
+  have nb0 : ¬ N4.E.byz 0 := by show ¬ (0 = 3); decide
+  have nb1 : ¬ N4.E.byz 1 := by show ¬ (1 = 3); decide
+  have r1 := NetReach.step (NetReach.init (N := N4)) (NetStep.start _ 0 nb0 rfl)
+  have r2 := NetReach.step r1 (NetStep.start _ 1 nb1 rfl)
+  have r3 := NetReach.step r2 (NetStep.event _ 1 (.proposal ⟨0, 0, 0, -1, 8⟩) nb1 rfl trivial
+    (fun c hc => by cases hc; exact Or.inr (by decide)))
+  have r4 := NetReach.step r3 (NetStep.event _ 0 (.prevote ⟨0, 0, 1, some 8⟩) nb0 rfl trivial
+    (fun c hc => by cases hc; exact Or.inr (by decide)))
+  have r5 := NetReach.step r4 (NetStep.event _ 0 (.prevote ⟨0, 0, 3, some 8⟩) nb0 rfl trivial
+    (fun c hc => by cases hc; exact Or.inl rfl))
+  have r6 := NetReach.step r5 (NetStep.event _ 1 (.prevote ⟨0, 0, 0, some 8⟩) nb1 rfl trivial
+    (fun c hc => by cases hc; exact Or.inr (by decide)))
+  have r7 := NetReach.step r6 (NetStep.event _ 1 (.prevote ⟨0, 0, 3, some 8⟩) nb1 rfl trivial
+    (fun c hc => by cases hc; exact Or.inl rfl))
+  have r8 := NetReach.step r7 (NetStep.event _ 0 (.precommit ⟨0, 0, 3, some 8⟩) nb0 rfl trivial
+    (fun c hc => by rcases hc with hc | hc <;> cases hc; exact Or.inl rfl; trivial))
+  have r9 := NetReach.step r8 (NetStep.event _ 0 (.precommit ⟨0, 0, 1, some 8⟩) nb0 rfl trivial
+    (fun c hc => by rcases hc with hc | hc <;> cases hc; exact Or.inr (by decide); trivial))
+  have r10 := NetReach.step r9 (NetStep.event _ 1 (.precommit ⟨0, 0, 3, some 8⟩) nb1 rfl trivial
+    (fun c hc => by rcases hc with hc | hc <;> cases hc; exact Or.inl rfl; trivial))
+  have r11 := NetReach.step r10 (NetStep.event _ 1 (.precommit ⟨0, 0, 0, some 8⟩) nb1 rfl trivial
+    (fun c hc => by rcases hc with hc | hc <;> cases hc; exact Or.inr (by decide); trivial))
+  obtain ⟨s, hi⟩ := net_reach_inv N4 ⟨E4_wf, fun _ => env4_ok⟩ _ r11
+  exact ⟨_, r11, by decide, by decide, by decide, s, (hi.node 0 nb0).1⟩
+
 end Juno.C12
